@@ -1653,6 +1653,20 @@ class Run:
         if act in (1, 2) and (not free or kind == 's' or n == 0 or not obj.view[name].flags.writeable):
             act = 0         # (an argument the harness built from a read-only array rightly refuses writes)
         w = '%s: call on another object (%s)' % (self.where, what)
+        values = v = None
+        if act == 1:
+            values = src.many(kind, tshape, n)
+        elif act == 2:
+            v = src.one(kind, tshape)
+        if act in (1, 2):
+            # the other object may STORE the column in a narrow / unsigned / byte-swapped dtype (an argument handed over in value
+            # form 7, an earlier narrow-storage object under test): a value that dtype cannot hold is not written (numpy would
+            # wrap or round it, which is numpy's documented cast and nothing the code under test decides) - a read is made instead
+            drawn = M.to_array(values if act == 1 else [v], kind, tshape)
+            held = drawn.astype(obj.view[name].dtype)
+            if not np.array_equal(held.astype(drawn.dtype), drawn):
+                act = 0
+                self.labels.add('side:unfit_for_storage')
         if act == 0:
             got = obj.prop(key=name)
             exp = M.to_array([r[name] for r in rows], kind, tshape)
@@ -1661,7 +1675,6 @@ class Run:
             scribble(got)
             self.keep('prop(%r) of another object' % name, got)
         elif act == 1:
-            values = src.many(kind, tshape, n)
             arg = self.to_arg(values, kind, tshape, 0)
             if op['count'] % 2:
                 obj.prop(key=name, value=arg)
@@ -1673,7 +1686,6 @@ class Run:
             self.labels.add('side:write')
         elif act == 2:
             i = op['k'] % n
-            v = src.one(kind, tshape)
             obj.prop(key=name, index=i, value=self.one_arg(v, kind, tshape, 0))
             rows[i][name] = v
             self.rekeep(obj)
